@@ -35,10 +35,12 @@ def main():
     rnd = {"A": 1, "B": 1, "C": 2, "D": 3, "E": 4}[letter]
     kinds = {"D": "two cooperating sites that each look fine alone, or state that survives between uses",
              "E": "a performance optimisation a maintainer would merge that is subtly wrong for a narrow class of inputs"}
-    table = NEEDS[letter]
     if letter == "E":
+        sys.path.insert(0, os.path.dirname(os.path.abspath(__file__)))
         from seedmeta_e import NEEDS_E
         table = NEEDS_E
+    else:
+        table = NEEDS[letter]
     for pid, (needs, hist) in sorted(table.items()):
         d = f"/verif/seeded/{pid}-{letter}"
         res = os.path.join(resdir, f"{prefix}{pid}.txt")
